@@ -106,15 +106,11 @@ func ruleC07GuardedInsert(c *Ctx) {
 	}
 	info := ih.Pkg.TypesInfo
 	found := false
-	walkOwn(ih.Body(), func(nd ast.Node) {
-		sw, ok := nd.(*ast.SwitchStmt)
-		if !ok || sw.Tag == nil {
-			return
-		}
-		t := buildSwitchTable(info, sw)
+	for _, dt := range dispatchTablesIn(ih) {
+		t := dt.t
 		arm := t.armFor(create)
 		if arm == nil {
-			return
+			continue
 		}
 		for _, st := range arm.Body {
 			ast.Inspect(st, func(m ast.Node) bool {
@@ -132,7 +128,7 @@ func ruleC07GuardedInsert(c *Ctx) {
 				return true
 			})
 		}
-	})
+	}
 	c.verdictIf(found, rule, ih, "CREATE arm", ih.Decl.Pos(), "CREATE records are applied through the guarded insert-or-update method", "the CREATE arm does not go through the persister method that guards its insert")
 }
 
@@ -278,26 +274,21 @@ func ruleC07ReplayArms(c *Ctx) {
 		}
 	}
 	var table *SwitchTable
-	walkOwn(ih.Body(), func(nd ast.Node) {
-		sw, ok := nd.(*ast.SwitchStmt)
-		if !ok || sw.Tag == nil {
-			return
-		}
-		t := buildSwitchTable(info, sw)
+	for _, dt := range dispatchTablesIn(ih) {
 		for _, a := range actions {
-			if t.armFor(a) != nil {
-				table = t
+			if dt.t.armFor(a) != nil {
+				table = dt.t
 			}
 		}
-	})
+	}
 	if table == nil {
 		c.unresolved("action switch in indexHeader")
 		return
 	}
 	for _, a := range actions {
-		c.verdictIf(table.armFor(a) != nil, rule, ih, "arm "+a.Name(), table.Stmt.Pos(), "action handled", "no arm for "+a.Name())
+		c.verdictIf(table.armFor(a) != nil, rule, ih, "arm "+a.Name(), table.At, "action handled", "no arm for "+a.Name())
 	}
-	c.verdictIf(defaultReturnsError(info, table.defaultArm()), rule, ih, "default", table.Stmt.Pos(), "unknown actions are rejected", "unknown actions are silently accepted")
+	c.verdictIf(defaultReturnsError(info, table.defaultArm()), rule, ih, "default", table.At, "unknown actions are rejected", "unknown actions are silently accepted")
 	_ = cfg.KindBody
 }
 
